@@ -329,7 +329,9 @@ class Explorer:
         tr.calls = list(w.handler_calls)
         return tr, b
 
-    fault_kinds = ("L",)  # L: "database is locked" (transient), E: "disk I/O error" (not retried by the engine)
+    # L: sqlite "database is locked" (the engine does not classify it transient), T: ConnectionError (classified
+    # transient: re-raised, the processor reschedules the message), E: sqlite "disk I/O error"
+    fault_kinds = ("L",)
 
     def count_statements(self, st, row_id):
         """Statements the engine executes while this delivery is handled (dry run on the restored state)."""
@@ -369,6 +371,8 @@ class Explorer:
                 return
             if fired["n"] == i:
                 fired["done"] = True
+                if fk == "T":  # an error the engine classifies as transient (re-raised to the processor, rescheduled)
+                    raise ConnectionError("connection reset by peer")
                 raise sqlite3.OperationalError("database is locked" if fk == "L" else "disk I/O error")
             fired["n"] += 1
 
